@@ -75,6 +75,7 @@ CHECKS = {
                 ref='DESIGN.md §4 C20'),
 }
 NA = {
+    'C11': 'a solver-based check exists (checks/c11.py: MatrixId round trips and parse_with_sigil decide in minutes and found two defects that are fixed), but MatrixId::parse_with_type and MatrixToUri::parse - which rebuild their input with format! at symbolic offsets - did not finish within 25 minutes at 12 bytes, and url::Url (matrix: URIs) is third-party; not claimed rather than claimed with half of the entry points (DESIGN §8.6)',
     'C14': 'depends on html5ever\'s tokenizer/tree builder/serializer (third-party state machines over Rc<RefCell> DOM); not encodable with Kani or the MIR executor (DESIGN §4 C14)',
     'C15': 'same dependency on html5ever parse/serialize round trips as C14 (DESIGN §4 C15)',
     'C18': 'serde-derive / event_enum! generated (de)serialization driving serde_json\'s parser: third-party visitor plumbing, Kani ICEs/explodes, no ruma-owned kernel to encode (DESIGN §4 C18)',
